@@ -453,6 +453,8 @@ def curated():
     A(struct([LBuf(s1, 3, P("u8"))], "LBS1x3_u8"))
     A(struct([LBuf(P("float"), 5, P("i32"))], "LBf5_i32"))
     A(struct([LBuf(P("i32"), 1, P("size_t"))], "LBi32x1"))
+    # narrow signed size members (an oversize count stored in them is negative) after other members
+    A(struct([Member(vec(P("string"))), LBuf(P("u16"), 5, P("i8")), Member(P("float"))], "LBu16x5_i8")); A(struct([Member(P("string")), LBuf(P("u32"), 100, P("i16"))], "LBu32x100_i16"))
     A(wrapper(P("u32"), "Wu32")); A(wrapper(vec(s1), "WvecS1")); A(wrapper(LBuf(P("u16"), 9, P("u8")), "WLB")); A(vec(wrapper(P("string"), "Wstr")))
     A(struct([Member(handle()), Member(P("string")), Member(vec(handle()))], "SHnd"))
     # unbounded logical buffers (round trip / format / truncation / size / fault checks only; C02 and C04 exclude them as stated)
